@@ -184,7 +184,7 @@ func (d *LogDS) Query(ctx context.Context, q query.Query) (query.Results, error)
 }
 
 func (d *LogDS) Sync(ctx context.Context, prefix datastore.Key) error { return nil }
-func (d *LogDS) Close() error                                           { return nil }
+func (d *LogDS) Close() error                                         { return nil }
 
 func (d *LogDS) Batch(ctx context.Context) (datastore.Batch, error) {
 	if err := d.attempt("batch"); err != nil {
